@@ -68,3 +68,137 @@ package queues
 //@   props C10
 //@   modifies q.closed
 //@   ensures [closed] result == nil && q.closed
+
+// ---------------------------------------------------------------- heap.go / priority.go
+// An entry's fields are written once, when PriorityQueue.Enqueue creates it.
+//@ type enqItem: immutable Value, Priority, Index
+// Ghost membership view of a heapQueue: $mem = the set of entries in items, $idx = the slot of each entry.
+//@ type heapQueue: ghost $mem (Array Int Bool)
+//@ type heapQueue: ghost $idx (Array Int Int)
+//@ pred HQ(pq *heapQueue) := pq != nil && @HWF($elems(pq.items), len(pq.items), pq.$mem, pq.$idx) && !(pq.$mem[nil])
+
+// heapQueue.Less is a strict weak order (what container/heap needs) and total on entries with distinct Index (ties are decided).
+//@ lemma hlt_irreflexive(x Int)
+//@   props C04
+//@   ensures !@hlt(x, x)
+//@ lemma hlt_transitive(x Int, y Int, z Int)
+//@   props C04
+//@   requires @hlt(x, y) && @hlt(y, z)
+//@   ensures @hlt(x, z)
+//@ lemma hlt_negtransitive(x Int, y Int, z Int)
+//@   props C04
+//@   requires !@hlt(x, y) && !@hlt(y, z)
+//@   ensures !@hlt(x, z)
+
+//@ func heapQueue.Len
+//@   props C04 C17
+//@   ensures result == len(pq.items)
+
+//@ func heapQueue.Less
+//@   props C04
+//@   requires HQ(pq) && 0 <= i && i < len(pq.items) && 0 <= j && j < len(pq.items)
+//@   ensures [order] result == @hlt(pq.items[i], pq.items[j])
+//@   ensures [lex]   result == (pq.items[i].Priority < pq.items[j].Priority || (pq.items[i].Priority == pq.items[j].Priority && pq.items[i].Index < pq.items[j].Index))
+
+//@ func heapQueue.Swap
+//@   props C04
+//@   requires HQ(pq) && 0 <= i && i < len(pq.items) && 0 <= j && j < len(pq.items)
+//@   modifies pq.items[*], pq.$idx
+//@   ensures [swap] $elems(pq.items) == $store($store(old($elems(pq.items)), i, old(pq.items[j])), j, old(pq.items[i]))
+//@   ensures [hq]   HQ(pq) && len(pq.items) == old(len(pq.items))
+//@   ghost at return: pq.$idx := $store($store(old(pq.$idx), old(pq.items[j]), i), old(pq.items[i]), j)
+
+//@ func heapQueue.Push
+//@   props C04
+//@   requires HQ(pq) && $typeof(x) == $tid(*enqItem) && $ptrof(x) != nil && !(pq.$mem[$ptrof(x)]) && len(pq.items) < MaxInt
+//@   modifies pq.items, pq.items[**], pq.$mem, pq.$idx, $alloc
+//@   ensures [len]  len(pq.items) == old(len(pq.items)) + 1 && pq.items[old(len(pq.items))] == $ptrof(x)
+//@   ensures [kept] forall k int :: 0 <= k && k < old(len(pq.items)) ==> pq.items[k] == old(pq.items[k])
+//@   ensures [mem]  pq.$mem == $store(old(pq.$mem), $ptrof(x), true)
+//@   ensures [hq]   HQ(pq)
+//@   ghost at return: pq.$mem[$ptrof(x)] := true
+//@   ghost at return: pq.$idx[$ptrof(x)] := old(len(pq.items))
+
+//@ func heapQueue.Pop
+//@   props C04
+//@   requires HQ(pq) && len(pq.items) >= 1
+//@   modifies pq.items, pq.$mem
+//@   ensures [last] result == $mk(old(pq.items[len(pq.items) - 1])) && len(pq.items) == old(len(pq.items)) - 1
+//@   ensures [kept] $elems(pq.items) == old($elems(pq.items))
+//@   ensures [mem]  pq.$mem == $store(old(pq.$mem), old(pq.items[len(pq.items) - 1]), false)
+//@   ensures [hq]   HQ(pq)
+//@   ghost at return: pq.$mem[old(pq.items[len(pq.items) - 1])] := false
+
+// PriorityQueue: abstract state = the set q.internal.$mem of pending entries plus insertionCount; every entry's Index is below
+// insertionCount and unique, so the (Priority, Index) order is total on pending entries and Index order is acceptance order.
+//@ pred RI_PQ(q *PriorityQueue) := q != nil && q.internal != nil && HQ(q.internal)
+//@      && @Heap($elems(q.internal.items), len(q.internal.items)) && len(q.internal.items) <= 2305843009213693952
+//@      && (forall e *enqItem {q.internal.$mem[e]} :: q.internal.$mem[e] ==> $alloc(e) && e.Index < q.insertionCount)
+//@      && (forall a *enqItem, b *enqItem {q.internal.$mem[a], q.internal.$mem[b]} :: q.internal.$mem[a] && q.internal.$mem[b] && a.Index == b.Index ==> a == b)
+//@ assumption: fewer than 2^61 entries are pending in one PriorityQueue and fewer than 2^63-1 are ever enqueued (insertionCount does not overflow)
+
+//@ func NewPriorityQueue
+//@   props C04 C17
+//@   modifies $alloc, heapQueue.items, heapQueue.items[**], heapQueue.$mem, heapQueue.$idx, PriorityQueue.internal, PriorityQueue.insertionCount, PriorityQueue.closed
+//@   ensures [fresh] $fresh(result) && result.insertionCount == 0 && !result.closed
+//@   ensures [empty] len(result.internal.items) == 0
+//@   ensures [ri]    RI_PQ(result)
+//@   inlines container/heap.Init
+//@   loop container/heap.Init#1: invariant n == 0 && i == 0 - 1
+//@   ghost after call container/heap.Init: pq.$mem := $emptyset()
+
+//@ func PriorityQueue.Len
+//@   props C17 C04
+//@   requires q.internal != nil
+//@   ensures result == len(q.internal.items)
+
+//@ func PriorityQueue.Enqueue
+//@   props C04 C01 C10 C17
+//@   inlines container/heap.Push, container/heap.up
+//@   requires RI_PQ(q) && q.insertionCount < MaxInt && len(q.internal.items) < 2305843009213693952
+//@   modifies $alloc, q.insertionCount, heapQueue.items, heapQueue.items[**], heapQueue.$mem, heapQueue.$idx
+//@   ensures [ri]     RI_PQ(q)
+//@   ensures [reject] (old(q.closed) || !$isT(T, item)) ==> !result && q.internal.$mem == old(q.internal.$mem) && q.insertionCount == old(q.insertionCount)
+//@   ensures [accept] (!old(q.closed) && $isT(T, item)) ==> result && q.insertionCount == old(q.insertionCount) + 1
+//@                      && (exists e *enqItem :: $fresh(e) && e.Value == $asT(T, item) && e.Priority == priority && e.Index == old(q.insertionCount)
+//@                            && q.internal.$mem == $store(old(q.internal.$mem), e, true))
+//@   ensures [frame]  q.closed == old(q.closed) && q.internal == old(q.internal)
+//@   loop container/heap.up#1: invariant [inv] 0 <= j && j < len(q.internal.items) && @InvUp($elems(q.internal.items), len(q.internal.items), j)
+//@   loop container/heap.up#1: invariant [hq]  HQ(q.internal) && len(q.internal.items) == old(len(q.internal.items)) + 1
+//@                               && q.internal.$mem == $store(old(q.internal.$mem), $addr(i), true) && q.insertionCount == old(q.insertionCount) + 1
+
+//@ func PriorityQueue.Dequeue
+//@   props C04 C01 C10 C17
+//@   inlines container/heap.Pop, container/heap.down
+//@   requires RI_PQ(q)
+//@   modifies heapQueue.items, heapQueue.items[**], heapQueue.$mem, heapQueue.$idx
+//@   ensures [ri]    RI_PQ(q)
+//@   ensures [empty] old(len(q.internal.items)) == 0 ==> !result1 && result0 == $box(T, zero(T)) && q.internal.$mem == old(q.internal.$mem)
+//@   ensures [least] old(len(q.internal.items)) > 0 ==> result1 && (exists e *enqItem :: old(q.internal.$mem)[e] && result0 == $box(T, e.Value)
+//@                     && q.internal.$mem == $store(old(q.internal.$mem), e, false) && @MinOf(old(q.internal.$mem), e))
+//@   ensures [frame] q.insertionCount == old(q.insertionCount) && q.closed == old(q.closed)
+//@   apply RootMinPQ($elems(q.internal.items), len(q.internal.items)) at entry
+//@   loop container/heap.down#1: invariant [inv] i0 <= i && i <= 2305843009213693952 && @InvDown($elems(q.internal.items), n, i)
+//@   loop container/heap.down#1: invariant [hq]  HQ(q.internal) && len(q.internal.items) == old(len(q.internal.items)) && q.internal.$mem == old(q.internal.$mem)
+//@                               && q.internal.items[n] == old(q.internal.items[0])
+
+//@ lemma RootMinPQ(a (Array Int Int), n Int, k Int)
+//@   props C04
+//@   induct k
+//@   requires @Heap(a, n) && 0 <= k && k < n
+//@   ensures !@hlt(a[k], a[0])
+
+//@ func PriorityQueue.Purge
+//@   props C04 C10 C17
+//@   requires q.internal != nil
+//@   modifies $alloc, heapQueue.items, heapQueue.items[**], heapQueue.$mem, heapQueue.$idx
+//@   ensures [empty] len(q.internal.items) == 0 && RI_PQ(q)
+//@   ensures [count] q.insertionCount == old(q.insertionCount) && q.closed == old(q.closed)
+//@   inlines container/heap.Init
+//@   loop container/heap.Init#1: invariant n == 0 && i == 0 - 1
+//@   ghost after call container/heap.Init: q.internal.$mem := $emptyset()
+
+//@ func PriorityQueue.Close
+//@   props C10
+//@   modifies q.closed
+//@   ensures [closed] result == nil && q.closed
